@@ -576,15 +576,19 @@ class DimensionValue(Value):
             sign, v, d = self.__reUnNumDim.findall(normalize(item.value))[0]
             if '.' in v:
                 val = float(sign + v)
-                if val in (float('inf'), float('-inf')):
-                    # nothing to calculate with and nothing to serialise
-                    self.wellformed = False
-                    self._log.error(
-                        'DimensionValue: Number too large: %s' % self._valuestr(cssText)
-                    )
-                    return
             else:
                 val = int(sign + v)
+            try:
+                toolarge = float(val) in (float('inf'), float('-inf'))
+            except OverflowError:
+                toolarge = True
+            if toolarge:
+                # nothing to calculate with and nothing to serialise
+                self.wellformed = False
+                self._log.error(
+                    'DimensionValue: Number too large: %s' % self._valuestr(cssText)
+                )
+                return
 
             dim = None
             if d:
